@@ -126,6 +126,8 @@ def get_iter(interp, v, node=None):
         return ListIter(v.force(interp))
     if isinstance(v, SDict):
         return ListIter(list(v.conc_keys(interp)))
+    if isinstance(v, SSet):
+        return ListIter(list(v.items))          # iteration order of a set is unspecified: contracts must not depend on it
     if isinstance(v, str):
         return ListIter(list(v))
     if isinstance(v, Instance):
